@@ -271,7 +271,7 @@ func (c *Config) Validate() (warns []error, errs []error) {
 
 	for _, quota := range []QuotaSettings{c.Quota.Connections, c.Quota.Logins} {
 		if quota.Enabled {
-			if quota.OPS <= 0 {
+			if !(quota.OPS > 0) { // also rejects NaN, which compares false with everything
 				e("Invalid quota ops %g, use a number > 0", quota.OPS)
 			}
 			if quota.Burst < 1 {
